@@ -237,6 +237,7 @@ Json EngineGen::generate(uint64_t seed, const runner::GenOptions& opt, const Eng
       c.setb("twice", rng.chance(150));
       op.set("cancel", c);
     }
+    if (f.lockout && builds > 0 && rng.chance(200)) op.set("intrude", Json::obj().set("mode", (int64_t)rng.below(2)).set("n", (int64_t)rng.below(25)));
     hist.push(op);
     builds++;
   };
@@ -254,6 +255,9 @@ Json EngineGen::generate(uint64_t seed, const runner::GenOptions& opt, const Eng
       hist.push(Json::obj().set("op", "set").set("k", id).set("v", util::hex(v)));
     } else if (roll < 760 && f.clientVersions && rng.chance(400)) {
       hist.push(Json::obj().set("op", "client_version").set("v", (int64_t)rng.range(1, 4)));
+    } else if (roll < 760 && f.lockout && rng.chance(500)) {
+      if (rng.chance(600)) hist.push(Json::obj().set("op", "reject_attach").set("v", (int64_t)rng.range(1, 4)));
+      else hist.push(Json::obj().set("op", "foreign_schema"));
     } else if (roll < 800 && f.restart) {
       hist.push(Json::obj().set("op", "restart"));
     } else if (roll < 850 && f.invalidate && !computed.empty()) {
@@ -467,6 +471,17 @@ struct Run : public BuildEngineDelegate, public basic::ExecutionQueueDelegate {
   int restartsDone = 0;
   int versionChanges = 0;
   uint32_t diskClientVersion = 0;
+  bool diskSchemaForeign = false;       // info.version was rewritten by a "different llbuild"
+  struct IntrudeSpec {
+    bool on = false;
+    int mode = 0;   // 0: a second engine attaches during the build; 1: attached before, builds during
+    int n = 0;      // engine callback after which it happens
+    bool done = false;
+  } intrude;
+  std::unique_ptr<BuildEngine> intruder;
+  void doIntrude();
+  void opRejectAttach(const Json& op);
+  void opForeignSchema();
   int skippedAfterRestart = 0;
   bool restartedSinceBuild = false;
   bool cancelGo = false, cancelDone = true, cancelAbort = false;
@@ -678,6 +693,7 @@ void Run::engineCallback(const char* where) {
   // createExecutionQueue is called with the engine's queue mutex held: cancelling from inside that one
   // delegate callback self-deadlocks by construction and is not a task callback (outside C05's quantifier)
   bool inQueueFactory = !strcmp(where, "createExecutionQueue");
+  if (inBuild && intrude.on && !intrude.done && cbCount > intrude.n && !inQueueFactory) doIntrude();
   if (inBuild && cancel.on && !cancelIssued && (cancel.kind == 0 || cancel.kind == 1) && cbCount > cancel.n &&
       !(inQueueFactory && cancel.kind == 0)) {
     if (cancel.kind == 0) {
@@ -1268,11 +1284,135 @@ void cycleDetected(void* ctx, const llb_data_t* keys, uint64_t n) {
 }
 } // namespace capi_glue
 
+
+// ---- C03: a second engine on the same database file (another process), and databases of another version
+
+namespace {
+// What the second engine would run if it were let in: everything it does is a violation.
+struct IntruderTask : public Task {
+  void start(TaskInterface) override {}
+  void providePriorValue(TaskInterface, const ValueType&) override {}
+  void provideValue(TaskInterface, uintptr_t, const KeyType&, const ValueType&) override {}
+  void inputsAvailable(TaskInterface ti) override { ti.complete(toVal("INTRUDER")); }
+};
+struct IntruderRule : public Rule {
+  explicit IntruderRule(const KeyType& key) : Rule(key, basic::CommandSignature(77)) {}
+  Task* createTask(BuildEngine&) override { return new IntruderTask(); }
+  bool isResultValid(BuildEngine&, const ValueType&) override { return false; }
+};
+struct IntruderDelegate : public BuildEngineDelegate, public basic::ExecutionQueueDelegate {
+  int lookups = 0, errors = 0;
+  std::string lastError;
+  void reset() {
+    lookups = errors = 0;
+    lastError.clear();
+  }
+  std::unique_ptr<basic::ExecutionQueue> createExecutionQueue() override { return std::unique_ptr<basic::ExecutionQueue>(new InlineQueue(*this)); }
+  std::unique_ptr<Rule> lookupRule(const KeyType& key) override {
+    lookups++;
+    return std::unique_ptr<Rule>(new IntruderRule(key));
+  }
+  void cycleDetected(const std::vector<Rule*>&) override {}
+  void error(const llvm::Twine& message) override {
+    errors++;
+    lastError = message.str();
+  }
+  void queueJobStarted(basic::JobDescriptor*) override {}
+  void queueJobFinished(basic::JobDescriptor*) override {}
+  void processStarted(basic::ProcessContext*, basic::ProcessHandle, llbuild_pid_t) override {}
+  void processHadError(basic::ProcessContext*, basic::ProcessHandle, const Twine&) override {}
+  void processHadOutput(basic::ProcessContext*, basic::ProcessHandle, StringRef) override {}
+  void processFinished(basic::ProcessContext*, basic::ProcessHandle, const basic::ProcessResult&) override {}
+};
+IntruderDelegate g_intruderDelegate;
+
+std::string fileBytes(const std::string& path) {
+  std::string out;
+  simfs::fs().readFile(path, &out);
+  return out;
+}
+} // namespace
+
+// Runs on the engine thread, inside a callback of the build that holds the database: whatever the second engine
+// tries within SQLite's busy timeout (5 s of simulated time) must fail and must not change the file.
+void Run::doIntrude() {
+  intrude.done = true;
+  std::string before = fileBytes(dbPath), beforeJ = fileBytes(dbPath + "-journal");
+  uint64_t t0 = sim::now_ns();
+  ev(EV_NOTE, "", intrude.mode == 0 ? "second-engine-attach" : "second-engine-build", cbCount);
+  ctr()[intrude.mode == 0 ? "second_engine_attach_during_build" : "second_engine_build_during_build"]++;
+  if (intrude.mode == 0) {
+    g_intruderDelegate.reset();
+    intruder.reset(new BuildEngine(g_intruderDelegate));
+    std::string err;
+    auto db = createSQLiteBuildDB(dbPath, clientVersion, /*recreateUnmatchedVersion=*/true, &err);
+    bool ok = db && intruder->attachDB(std::move(db), &err);
+    if (ok) {
+      // attached in a gap where no lock was held (before BEGIN): then it must at least be unable to build
+      ValueType v = intruder->build(KeyType(targetKey));
+      if (!v.empty() || g_intruderDelegate.lookups)
+        viol("C03.5", "a second engine attached to the database and ran a build while another build held it");
+    } else if (err.empty()) {
+      viol("C03.5", "a second engine was refused the database without an error message");
+    }
+  } else if (intruder) {
+    ValueType v = intruder->build(KeyType(targetKey));
+    if (!v.empty() || g_intruderDelegate.lookups)
+      viol("C03.5", "a second engine (attached earlier) ran a build while another build held the database");
+    else if (!g_intruderDelegate.errors)
+      viol("C03.5", "a second engine's build was refused without an error report");
+  }
+  intruder.reset();
+  if (fileBytes(dbPath) != before || fileBytes(dbPath + "-journal") != beforeJ)
+    viol("C03.5", "the database file (or its journal) changed while a second engine was trying to get in");
+  ctr()["second_engine_wait_ms"] += (sim::now_ns() - t0) / 1000000;
+}
+
+// A database created under another client version, opened by a client that asked not to recreate it: rejected with an
+// error, file untouched.
+void Run::opRejectAttach(const Json& op) {
+  if (!useDb || diskClientVersion == 0 || attachFailed) return;
+  if (engine || cengine) doRestart();
+  uint32_t v = (uint32_t)op.getn("v", 1);
+  bool sameClient = v == diskClientVersion && !diskSchemaForeign;
+  std::string before = fileBytes(dbPath);
+  if (before.empty()) return;
+  IntruderDelegate del;
+  BuildEngine e2(del);
+  std::string err;
+  auto db = createSQLiteBuildDB(dbPath, v, /*recreateUnmatchedVersion=*/false, &err);
+  bool ok = db && e2.attachDB(std::move(db), &err);
+  ev(EV_NOTE, "", std::string("attach-no-recreate ") + (ok ? "accepted" : "rejected"), v);
+  ctr()[sameClient ? "attach_no_recreate_same_version" : "attach_no_recreate_other_version"]++;
+  if (sameClient && !ok) viol("C03.4", "a database of the requested schema and client version was rejected: " + err);
+  if (!sameClient && ok) viol("C03.4", "a database written under another schema or client version was accepted by a client that did not ask to recreate it");
+  if (!sameClient && !ok && err.empty()) viol("C03.4", "a database of another version was rejected without an error message");
+  if (fileBytes(dbPath) != before) viol("C03.4", "opening a database without recreate changed the file");
+}
+
+// Another llbuild (other schema version) wrote the file.
+void Run::opForeignSchema() {
+  if (!useDb || diskClientVersion == 0 || attachFailed) return;
+  if (engine || cengine) doRestart();
+  sqlite3* h = nullptr;
+  if (sqlite3_open(dbPath.c_str(), &h) != SQLITE_OK) return;
+  char* msg = nullptr;
+  if (sqlite3_exec(h, "UPDATE info SET version = version + 1;", nullptr, nullptr, &msg) == SQLITE_OK) {
+    diskSchemaForeign = true;
+    ev(EV_NOTE, "", "foreign-schema-version");
+    ctr()["foreign_schema_version"]++;
+    changedSince = true;
+  }
+  sqlite3_free(msg);
+  sqlite3_close(h);
+}
+
 void Run::ensureEngine() {
   if (!engine && !cengine && useDb) {
     // the next attach compares the requested client version with the one the file on disk was created under
-    if (diskClientVersion != 0 && diskClientVersion != clientVersion) {
+    if ((diskClientVersion != 0 && diskClientVersion != clientVersion) || diskSchemaForeign) {
       // never interpreted: the database is recreated empty
+      diskSchemaForeign = false;
       mem.clear();
       dbv.clear();
       dbCommitted.clear();
@@ -1474,6 +1614,14 @@ void Run::opBuild(const Json& op) {
     cancel.yields = (int)c->getn("yields");
     cancel.twice = c->getb("twice");
   }
+  intrude = IntrudeSpec();
+  if (const Json* in = op.find("intrude")) {
+    if (useDb && !attachFailed && !capi && !killWindow && !cancel.on) {
+      intrude.on = true;
+      intrude.mode = (int)in->getn("mode");
+      intrude.n = (int)in->getn("n");
+    }
+  }
   if (attachFailed) {
     ev(EV_BUILD_END, targetKey, "attach-failed");
     BuildSummary s;
@@ -1514,6 +1662,19 @@ void Run::opBuild(const Json& op) {
     });
   }
 
+  if (intrude.on && intrude.mode == 1) {
+    // the second engine attaches while nobody holds a lock (legitimate), and tries to build later
+    g_intruderDelegate.reset();
+    intruder.reset(new BuildEngine(g_intruderDelegate));
+    std::string err;
+    auto db2 = createSQLiteBuildDB(dbPath, clientVersion, /*recreateUnmatchedVersion=*/true, &err);
+    if (!db2 || !intruder->attachDB(std::move(db2), &err)) {
+      intruder.reset();
+      intrude.on = false;
+      ev(EV_NOTE, "", "second-engine-early-attach-failed: " + err);
+    }
+  }
+
   ValueType copy;
   if (capi) {
     llb_data_t kd{targetKey.size(), (const uint8_t*)targetKey.data()};
@@ -1524,6 +1685,7 @@ void Run::opBuild(const Json& op) {
     copy = engine->build(KeyType(targetKey));
   }
   inBuild = false;
+  intruder.reset();
   cancelAbort = true;
   cancelGo = true;
   if (!cancelDone) sim::block_until([this]() { return cancelDone; }, 0, "join-canceller");
@@ -1809,6 +1971,10 @@ void Run::execute() {
     } else if (kind == "restart") {
       if (dropRestarts) continue;
       if (engine || cengine || buildNo > 0) doRestart();
+    } else if (kind == "reject_attach") {
+      opRejectAttach(op);
+    } else if (kind == "foreign_schema") {
+      opForeignSchema();
     } else if (kind == "client_version") {
       // a different client version: the database must be recreated empty, never interpreted
       uint32_t v = (uint32_t)op.getn("v", 1);
@@ -2279,6 +2445,7 @@ EngineFeatures featuresFor(const std::string& property, const runner::GenOptions
     f.dbPermille = 1000;
     f.numericKeys = true;
     f.clientVersions = true;
+    f.lockout = true;
   } else if (property == "C04") {
     f.dbPermille = 1000;
   } else if (property == "C05") {
